@@ -90,7 +90,7 @@ structure ArraysOK (b : List Nat) (h : PassHdr) (a : PassArrays) : Prop where
   oActions : a.oActions + (h.numRules + 1) * 2 = a.states
   states : a.states + h.numTransition * h.numColumns * 2 < b.length
   order : a.ranges = passHeaderSize ∧ a.ranges + h.numRanges * 6 = a.oRuleMap ∧ a.oRuleMap + (h.numSuccess + 1) * 2 = a.ruleMap ∧
-    a.precontext + h.numRules + 3 = a.oConstraint ∧ a.oConstraint + (h.numRules + 1) * 2 = a.oActions
+    a.precontext + h.numRules + 3 = a.oConstraint ∧ a.oConstraint + (h.numRules + 1) * 2 = a.oActions ∧ a.sortKeys + h.numRules * 2 = a.precontext
   entries : be16 b (a.oRuleMap + h.numSuccess * 2) = .ok a.numEntries
 
 theorem readArrays_total (b : List Nat) (h : PassHdr) (hl : passHeaderSize ≤ b.length) :
@@ -139,7 +139,7 @@ theorem readArrays_total (b : List Nat) (h : PassHdr) (hl : passHeaderSize ≤ b
   refine ⟨_, rfl, fun a ha => ?_⟩
   simp only [Except.ok.injEq] at ha
   subst ha
-  refine ⟨?_, ?_, ?_, ?_, ?_, ?_, ?_, ?_, ?_, ?_, ⟨?_, ?_, ?_, ?_, ?_⟩, e11⟩ <;> simp only [] <;> omega
+  refine ⟨?_, ?_, ?_, ?_, ?_, ?_, ?_, ?_, ?_, ?_, ⟨?_, ?_, ?_, ?_, ?_, ?_⟩, e11⟩ <;> simp only [] <;> omega
 
 /-- the code blocks follow the transition table and end inside the pass -/
 structure CodesOK (b : List Nat) (h : PassHdr) (a : PassArrays) (c : PassCodes) : Prop where
